@@ -407,6 +407,10 @@ func runConc(r *vk.Run, u *universe) (states, trans, evals int) {
 		if *flagOnly != "" && *flagOnly != sc.Name {
 			continue
 		}
+		if !orderControlled && sc.Cfg != "default" {
+			r.Capped("conc/" + sc.Name + ": skipped, several senders can be queued at a commit and the promotion order is not controlled in this build")
+			continue
+		}
 		scs = append(scs, sc)
 		stats[sc.Name] = &concStats{Name: sc.Name, Cfg: sc.Cfg, Setup: sc.Setup, Threads: sc.Threads, Bound: sc.Bound, ByCost: map[int]int{}, finals: map[string]int{}}
 	}
